@@ -90,7 +90,7 @@ def enc_form(fs):
     return ";".join(enc_pieces(n) + "=" + enc_pieces(v) for n, v in fs) if fs else "-"
 
 
-def gen_cookies(rng, n, quoted=False):
+def gen_cookies(rng, n, quoted=False, http=False):
     """items (name, value, sep, ws, esc): esc None = token value; list of bools = quoted string, flag = backslash in front"""
     cs = []
     for _ in range(n):
@@ -98,8 +98,13 @@ def gen_cookies(rng, n, quoted=False):
         sep = rng.choice([59, 44])
         ws = bytes(rng.choice([32, 9]) for _ in range(rng.randint(0, 3)))
         if quoted and rng.random() < 0.6:
-            value = bytes(rng.randint(1, 255) for _ in range(rng.randint(0, 10)))
-            esc = [(b in (34, 92)) or rng.random() < 0.15 for b in value]
+            if http:
+                # inside an HTTP header line: no CR/LF, and the header parser rejects a backslash in front of a byte >= 127
+                value = bytes(rng.choice([c for c in range(32, 256)]) for _ in range(rng.randint(0, 10)))
+                esc = [(b in (34, 92)) or (b < 127 and rng.random() < 0.15) for b in value]
+            else:
+                value = bytes(rng.randint(1, 255) for _ in range(rng.randint(0, 10)))
+                esc = [(b in (34, 92)) or rng.random() < 0.15 for b in value]
         else:
             value = rand_from(rng, TOKEN, 0, 8)
             esc = None
@@ -127,9 +132,55 @@ def enc_cookies(cs):
                     for n, v, sep, ws, esc in cs) if cs else "-"
 
 
+def lm_modes(line):
+    """the parser's mode *before* every byte of a header line (Lean: LMode / lmStep); None if the line is not admissible"""
+    modes, m = [], "plain"
+    for c in line:
+        modes.append(m)
+        if m == "plain":
+            if c == 13:
+                return None
+            m = "quote" if c == 34 else "comment" if c == 40 else "plain"
+        elif m == "quote":
+            m = "plain" if c == 34 else "quoteEsc" if c == 92 else "quote"
+        elif m == "comment":
+            m = "plain" if c == 41 else "commentEsc" if c == 92 else "comment"
+        else:
+            if c >= 127:
+                return None
+            m = "quote" if m == "quoteEsc" else "comment"
+    return modes if m == "plain" else None
+
+
+def rich_value(rng):
+    """a header value with quoted strings and comments in it (balanced), visible ASCII, not starting with a blank"""
+    vis = bytes(c for c in range(33, 127) if c not in LINE_BAD and c not in (41, 92))
+    out = bytes([rng.choice(vis)])
+    for _ in range(rng.randint(0, 4)):
+        k = rng.random()
+        if k < 0.4:
+            out += bytes(rng.choice(vis + b" \t") for _ in range(rng.randint(1, 6)))
+        elif k < 0.75:
+            body = b""
+            for _ in range(rng.randint(0, 6)):
+                c = rng.choice(bytes(range(32, 127)))
+                body += b"\\" + bytes([c]) if (c in (34, 92) or rng.random() < 0.15) else bytes([c])
+            out += b'"' + body + b'"'
+        else:
+            body = b""
+            for _ in range(rng.randint(0, 6)):
+                c = rng.choice(bytes(range(32, 127)))
+                body += b"\\" + bytes([c]) if (c in (41, 92) or rng.random() < 0.15) else bytes([c])
+            out += b"(" + body + b")"
+    return out
+
+
 def fold_line(rng, line):
-    """FLine: head + continuation pieces; a fold may be put in front of any inner blank/tab (not the first byte)"""
-    cuts = [i for i in range(1, len(line)) if line[i] in (32, 9)]
+    """FLine: head + continuation pieces; a fold may be put in front of any inner blank/tab that stands outside quoted strings
+    and comments (inside them a CRLF is content, not a fold)"""
+    modes = lm_modes(line)
+    assert modes is not None, line
+    cuts = [i for i in range(1, len(line)) if line[i] in (32, 9) and modes[i] == "plain"]
     chosen = sorted(set(c for c in cuts if rng.random() < 0.35))
     parts, prev = [], 0
     for c in chosen:
@@ -167,7 +218,7 @@ def gen_peer(rng):
     q.query = form_wire(q.get) if q.get is not None else None
     q.proto = rng.choice([b"HTTP/1.0", b"HTTP/1.1"])
     q.fields, seen = [], set()
-    q.cookies = gen_cookies(rng, rng.randint(1, 4)) if rng.random() < 0.6 else None
+    q.cookies = gen_cookies(rng, rng.randint(1, 4), quoted=True, http=True) if rng.random() < 0.6 else None
     nf = rng.randint(0, 6)
     for _ in range(nf):
         name = rand_from(rng, NAME_CHARS, 1, 10)
@@ -178,7 +229,9 @@ def gen_peer(rng):
         ws = bytes(rng.choice([32, 9]) for _ in range(rng.randint(0, 3)))
         vis = bytes(c for c in range(33, 127) if c not in LINE_BAD)
         value = b""
-        if rng.random() < 0.9:
+        if rng.random() < 0.3:
+            value = rich_value(rng)
+        elif rng.random() < 0.9:
             value = bytes(rng.choice(vis) for _ in range(1)) + bytes(rng.choice(vis + b"  \t") for _ in range(rng.randint(0, 14)))
         q.fields.append((name, ws, value))
     if q.cookies is not None:
